@@ -108,6 +108,9 @@ func genSusp(t *rapid.T) SuspCase {
 	}
 	c.N = 1
 	nOther := rapid.IntRange(0, 2).Draw(t, "nother")
+	if len(c.Keys) < 2 {
+		nOther = 0 // the second task must never write the suspended call's key
+	}
 	for i := 0; i < nOther; i++ {
 		k := rapid.IntRange(0, len(c.Keys)-1).Draw(t, "okey")
 		if k == c.Fg.Key {
